@@ -250,6 +250,7 @@ def thorough_configs():
     """Every size 1..17 with one rank per host, and the other placements on a subset of sizes."""
     out = [(np, "flat") for np in range(1, 18)]
     out += [(np, "blk2") for np in (2, 4, 6, 7, 8, 12, 16)]
+    out += [(np, "blk3") for np in (6, 9, 12)]              # a number of ranks per host that is not a power of two
     out += [(np, "blk4") for np in (5, 8, 12, 16)]
     out += [(np, "cyc2") for np in (3, 4, 5, 8)]
     out += [(np, "cyc3") for np in (6, 7, 9)]
